@@ -24,8 +24,11 @@ MatchNativeC01(e, n) ==
   /\ n.ok => /\ SummaryEq(n.st, e.native.r)
              /\ \A i \in DOMAIN e.native.r.spends : e.native.r.spends[i].ecost = e.runs[i].cost
              /\ \A i \in DOMAIN e.native.r.spends : e.native.r.spends[i].ph = n.phs[i]       \* puzzle hash = tree hash of the reveal
+RunsFee(e) == SumSeq([i \in DOMAIN e.runs |-> IF "res" \in DOMAIN e.runs[i] THEN DeclaredFeeOfConds(e.runs[i].res) ELSE Zero])
 MatchC02(e) == /\ e.native.ok => ObsAccepted(e.native.r)
                /\ e.legacy.ok => ObsAccepted(e.legacy.r)
+               \* (only where every puzzle output is logged)
+               /\ (Judged(e) /\ "runs" \in DOMAIN e /\ e.native.ok) => ObsDeclaredFee(e.native.r, RunsFee(e))
 MatchC04(e, n) ==
   /\ (e.native.ok /\ n.ok) => /\ e.native.r.cost = n.cost
                               /\ e.native.r.ecost = n.ecost
